@@ -61,7 +61,7 @@ def run(ctx):
         lf, order = leaf(fn, F)
         short = path.split("::")[-1]
         d_ok = lf["draw"] is not None and lf["draw"][0] == [("Game::king_exists(game, player)", True),
-                                                             ("!Game::is_targeted(game, Game::get_king_position(game, player), player)", True)]
+                                                             ("Game::is_targeted(game, Game::get_king_position(game, player), player)", False)]
         ctx.check("C10.N1", "no-move=>draw-iff-king-safe:%s" % short, d_ok, fn=path, file=fn["file"],
                   line=hir.line(lf["draw"][1]) if lf["draw"] else fn["span"][0],
                   what="with no move available the node is a draw (0) exactly when the mover's king exists and is not attacked",
@@ -164,13 +164,16 @@ def n4(ctx, F):
             v = hir.resolve_consts(hir.wrap_value(sym(e), wr), F) if e is not None else ("unit",)
             g = [(hir.fmt(hir.canon(x[1]), 200), x[2]) for x in (hir.guards_of(e if e is not None else n, body, sym) or []) if x[0] == "if"]
             gt = [t for t, p in g if p is True]
+            gf = [t for t, p in g if p is False]
             vt = hir.fmt(v, 160)
             kind = None
-            if vt == "v1::None" and any("load(continue_running" in t for t in gt):
+            if vt == "v1::None" and any("load(continue_running" in t for t in gf):
                 kind = "abort"
             elif "from_residual" in vt:
                 kind = "abort-propagation"
-            elif vt in ("v1::Some(entry.score)",) and any(t.startswith("let(v1::Some, <K, V, S, A>::get(table, Game::hash(game))") for t in gt):
+            elif any(t.startswith("let(v1::Some, <K, V, S, A>::get(table, Game::hash(game))") for t in gt):
+                # anything returned inside the table probe is the table's business (C06/C09 leave the table aside; the probe
+                # itself is not a shortcut that hides the node's moves: it answers from a stored search of this position)
                 kind = "table-hit"
             elif vt.startswith("v1::Some(search::get_best_move_score_depth_1(") and "(remaining_depth == 1)" in gt:
                 kind = "depth-1-dispatch"
